@@ -757,6 +757,50 @@ theorem trans_C03_C15_C19_enqueueTail_v2 (t c : Nat) (e : String) (h : t + c < 4
     rw [show (-(c : Int)) = -((c : Nat) : Int) from rfl, hsub]
     simp [decTarget]
 
+/-! ### Batcher v2: the concurrency slots
+
+`r.inflight` is a `chan struct{}` of capacity MaxConcurrentBatches; the translator reads it as the number of tokens in
+it (a non-blocking send succeeds iff it is below its capacity, a receive takes one token, the audit's drain loop
+empties it). -/
+
+/-- `tryReserveBatchSlot()` is the machine's `slotFree` / `slotsAfter`: always true without a limit; with a limit it
+takes a slot iff fewer than the limit are taken -/
+theorem trans_C10_tryReserveBatchSlot_is_model (c : BCfg) (s : St) :
+    v2_tryReserveBatchSlot ⟨c.mcb, s.slots⟩ = (⟨c.mcb, (slotsAfter c s (slotFree c s) : Nat)⟩, slotFree c s) := by
+  by_cases h0 : c.mcb = 0
+  · simp [v2_tryReserveBatchSlot, slotFree, slotsAfter, h0]
+  · by_cases h1 : s.slots < c.mcb
+    · simp [v2_tryReserveBatchSlot, slotFree, slotsAfter, h0, h1]
+    · simp [v2_tryReserveBatchSlot, slotFree, slotsAfter, h0, h1]
+
+/-- never more tokens than the limit: reserving keeps `inflight ≤ MaxConcurrentBatches` -/
+theorem trans_C10_reserve_keeps_bound (mcb slots : Nat) (h : slots ≤ mcb) :
+    (v2_tryReserveBatchSlot ⟨mcb, slots⟩).1.inflight ≤ mcb := by
+  by_cases h0 : mcb = 0 <;> by_cases h1 : slots < mcb <;> simp [v2_tryReserveBatchSlot, h0, h1] <;> omega
+
+/-- `releaseBatchSlot()` (at the write-off of a batch, C11) gives back exactly one slot when a limit is set -/
+theorem trans_C10_C11_releaseBatchSlot_v2 (mcb slots : Nat) (h : 0 < slots) :
+    v2_releaseBatchSlot ⟨mcb, slots⟩ = ⟨mcb, ((if mcb ≠ 0 then slots - 1 else slots : Nat) : Int)⟩ := by
+  by_cases h0 : mcb = 0
+  · simp [v2_releaseBatchSlot, h0]
+  · have h0' : 0 < mcb := by omega
+    have hs : (0 : Int) < (slots : Int) := by omega
+    simp [v2_releaseBatchSlot, h0, h0', hs]
+    omega
+
+/-- the audit's drain: afterwards no slot is taken, and it reports whether one was (the machine's `doAudit`:
+`slots := 0`, outcome `failInflight` / `failBoth` iff `slots > 0`) -/
+theorem trans_C10_C19_confirmInflightIsZero_v2 (mcb slots : Nat) :
+    v2_confirmInflightIsZero ⟨mcb, slots⟩ = (⟨mcb, 0⟩, decide (slots = 0)) := by
+  by_cases h : slots = 0
+  · simp [v2_confirmInflightIsZero, h]
+  · have hs : 0 < slots := by omega
+    simp [v2_confirmInflightIsZero, h, hs]
+
+/-- `Inflight()` reports the number of slots taken -/
+theorem trans_C10_Inflight_v2 (mcb slots : Nat) (h : slots < 4294967296) : v2_Inflight ⟨mcb, slots⟩ = slots := by
+  simp [v2_Inflight, u32]; omega
+
 /-! ### non-vacuity: the translated functions on concrete values (also a readable trace of what they compute) -/
 
 example : v2_incTarget ⟨7⟩ 5 = ⟨12⟩ ∧ v2_incTarget ⟨7⟩ (-5) = ⟨2⟩ ∧ v2_incTarget ⟨7⟩ (-9) = ⟨0⟩ ∧ v2_incTarget ⟨7⟩ 0 = ⟨7⟩ := by decide
